@@ -8,7 +8,7 @@ func init() {
 		Title: "What the gateway reports about its schema is the schema it enforces",
 		Kernels: []Kernel{
 			{Name: "type-entries", Pkg: ".", Files: files, Entry: "VerifIntrospectionAnswers", Mode: "seq",
-				Reach: []string{"type entry checked", "shape checked"}, Functions: fns,
+				Reach: []string{"type entry checked"}, Functions: fns,
 				Known: []string{"C16-type-name-by-variable", "C16-shape-per-kind", "C16-interface-possible-types", "C16-input-field-defaults"}},
 			{Name: "round-trip", Pkg: ".", Files: files, Entry: "VerifIntrospectionRoundTrip", Mode: "seq",
 				Reach: []string{}, Functions: fns,
